@@ -1070,6 +1070,22 @@ pub fn run_c06(rep: &mut Report, driver: &str, workers: usize, thorough: bool, s
 pub fn run_c07(rep: &mut Report, driver: &str, workers: usize, thorough: bool, seed: u64) {
     // "Rule text is structured by …": the tree a rule holds for a text is the tree of that text
     rule_vs_expr("C07", rep, workers, thorough, seed);
+    {
+        // "parentheses only group" — in a metadata value too: a parenthesised constant is that constant, for the whole rule
+        let mut sr = StreamReport::new("parenthesised-metadata", "every constant shape (literals, lists and maps of them, two levels) as a metadata value, bare and inside one / two pairs of parentheses (around the whole value and around an inner item): Rule::parse gives the same rule", true);
+        for c in const_shapes().iter().filter(|c| !c.starts_with('(')) {
+            let bare = impl_parse_rule(&format!("// n\n@k: {};\ni1", c));
+            let inner = c.replacen("i1", "(i1)", 1).replacen("none", "((none))", 1);
+            for v in [format!("({})", c), format!("(({}))", c), format!("( {} )", c), inner] {
+                sr.count(&v, true);
+                let got = impl_parse_rule(&format!("// n\n@k: {};\ni1", v));
+                if got != bare {
+                    rep.add_finding(Finding { kind: "impl-violates-property".into(), stream: "parenthesised-metadata".into(), case: format!("parenmeta\t{}", hex(&v)), human: format!("@k: {};", v), impl_out: got, model_out: bare.clone(), predicate: "parentheses only group: a parenthesised metadata value is the value".into(), signature: "C07 parenthesised-metadata".into() });
+                }
+            }
+        }
+        rep.streams.push(sr);
+    }
     let mut rng = Rng::new(seed);
     let run = run_texts(prec_stream(), false, driver, workers);
     judge_texts("C07", "precedence", "`a op1 b op2 c` (bare, left- and right-parenthesised, with postfix steps) for every ordered pair of the 19 binary operator tokens; unary x binary combinations; if in operand positions; calls / lists / maps as operands; synonym spellings; chaining / non-chaining of contains, index forms, trailing commas, keyword-vs-call forms — accept/reject and tree compared with the reference parser", true, &run, "full", rep);
